@@ -81,11 +81,12 @@ Definition unlinked (s : core) (k : Z) : Prop :=
 
 (* ---------- descriptors created by the library ---------- *)
 Definition pipe_ok (k : kernel) (r w : Z) : Prop :=
+  1000 <= r /\ 1000 <= w /\
   exists v vw, k_open k r = Some v /\ vkind v = K_PIPE_R /\ vpeer v = w /\ vpeer_open v = true /\
                k_open k w = Some vw /\ vkind vw = K_PIPE_W /\ vpeer vw = r.
 
 Definition evfd_ok (k : kernel) (r w : Z) : Prop :=
-  w = r /\ exists v, k_open k r = Some v /\ vkind v = K_EVENTFD.
+  1000 <= r /\ w = r /\ exists v, k_open k r = Some v /\ vkind v = K_EVENTFD.
 
 Definition hids_ok (f : fdo) (P : Z -> Prop) : Prop :=
   (forall h, h_in f = Some h -> P h) /\ (forall h, h_out f = Some h -> P h) /\ (forall h, h_err f = Some h -> P h).
@@ -105,6 +106,7 @@ Record DynInv (s : core) : Prop := {
   dy_userh : forall k, 0 <= k < 16 -> hids_ok (fdt s k) (fun h => 0 <= h < 16);
   (* the kick descriptor of the epoll back ends *)
   dy_act : active_ref s = 1 ->
+           1000 <= active_fd s /\
            (exists v, k_open (kern s) (active_fd s) = Some v /\
                       (vkind v = K_EVENTFD \/ vkind v = K_PIPE_R)) /\
            (active_wr s = -1 \/ pipe_ok (kern s) (active_fd s) (active_wr s));
